@@ -667,7 +667,7 @@ public:
 private:
 
     std::pair<size_t, uint64_t> pred(uint64_t i) const {
-        if (i > ef.size()) {
+        if (i + 1 >= ef.size()) { // i is at or after the last key, whose value is ef.size() - 1
             auto j = ef.low.size();
             return {j - 1, ef.low[j - 1] + ((ef.high_1_select(j) + 1 - j) << (ef.wl))};
         }
